@@ -8,6 +8,8 @@ REGISTRY = {
     'C01': ('vf.checks.emis_check', lambda m: m.main('C01')),
     'C02': ('vf.checks.c02_check', lambda m: m.main()),
     'C03': ('vf.checks.c03_check', lambda m: m.main()),
+    'C04': ('vf.checks.c0405_check', lambda m: m.main('C04')),
+    'C05': ('vf.checks.c0405_check', lambda m: m.main('C05')),
     'C06': ('vf.checks.c06_check', lambda m: m.main()),
     'C07': ('vf.checks.c07_check', lambda m: m.main()),
     'C08': ('vf.checks.c08_check', lambda m: m.main()),
